@@ -391,6 +391,9 @@ func scanCalls() []scanCall {
 func randJSON(rng *rand.Rand, d int) string {
 	switch k := rng.Intn(8); {
 	case d <= 0 || k < 2:
+		if rng.Intn(4) == 0 {
+			return randJSONNumber(rng)
+		}
 		return []string{`"s"`, `"a${x}b"`, "1", "-2.5e3", "true", "null", `"é\n"`, `""`}[rng.Intn(8)]
 	case k < 5:
 		n := rng.Intn(4)
@@ -407,6 +410,18 @@ func randJSON(rng *rand.Rand, d int) string {
 		}
 		return "[" + strings.Join(parts, ",") + "]"
 	}
+}
+
+// randJSONNumber writes a number of the JSON grammar ( -? int frac? exp? ) with every part taken from boundary classes: mantissas of zero,
+// one digit and many digits, exponents of one digit up to more digits than any machine integer holds, both signs
+func randJSONNumber(rng *rand.Rand) string {
+	pick := func(v ...string) string { return v[rng.Intn(len(v))] }
+	n := pick("", "-") + pick("0", "1", "7", "12", "4294967296", "18446744073709551616", strings.Repeat("9", 40), strings.Repeat("9", 400))
+	n += pick("", "", ".0", ".5", ".000000000000000000001", "."+strings.Repeat("3", 60))
+	if rng.Intn(2) == 0 {
+		n += pick("e", "E") + pick("", "+", "-") + pick("0", "3", "308", "309", "999999999", "2147483647", "2147483648", "4294967296", "9999999999", strings.Repeat("9", 20), strings.Repeat("9", 64))
+	}
+	return n
 }
 
 func RunScan(behs [][]Step, tr *Trace, env Env, sum *Summary) {
